@@ -140,4 +140,4 @@ fn resize_and_zero_file(mut file: &File, len: u64) -> std::io::Result<()> {
 
 #[cfg(kani)]
 #[path = "/verif/units/kani/bitbox_ht_file.rs"]
-mod verif_kani;
+pub(crate) mod verif_kani;
